@@ -51,6 +51,40 @@ static void c14_surface(Buf *b, const char *tag) {
 static void c14_active(const char *tag) {
     char *js = TPMLIB_GetInfo(TPMLIB_INFO_ACTIVE_PROFILE); tr_begin("active tag=%s", tag); if (js) trhex("json", (uint8_t *)js, strlen(js)); tr_end(); free(js);
 }
+
+/* ---- what the profile's attributes enforce: six probe commands on keys that need no key generation ---- */
+static int g_c14_attr_profile;
+static uint32_t c14_probe_rc(Buf *b) { Rsp r = run(b); return r.rc; }
+static void c14_attr_probes(Buf *b, const char *tag) {
+    if (!g_c14_attr_profile) return;
+    uint32_t p[7] = {0};
+    /* RSA public key (LoadExternal, public part only) */
+    { uint8_t n[256]; for (int i = 0; i < 256; i++) n[i] = (uint8_t)(i * 37 + 11); n[0] |= 0x80; n[255] |= 1;
+      Buf pub = {0}; b_u16(&pub, ALG_RSA); b_u16(&pub, ALG_SHA256); b_u32(&pub, 0x00020040u); b_u16(&pub, 0); b_u16(&pub, ALG_NULL); b_u16(&pub, ALG_NULL); b_u16(&pub, 2048); b_u32(&pub, 0); b_2b(&pub, n, 256);
+      cmd_begin(b, ST_NO_SESSIONS, CC_LoadExternal); b_u16(b, 0); b_2b(b, pub.p, pub.n); b_u32(b, RH_NULL); Rsp r = run(b); b_free(&pub);
+      if (r.rc == 0) { uint32_t h = g32(r.p + 10); uint8_t m[32]; memset(m, 0x5a, 32);
+          cmd_begin(b, ST_NO_SESSIONS, CC_RSA_Encrypt); b_u32(b, h); b_2b(b, m, 32); b_u16(b, ALG_NULL); b_u16(b, 0); p[1] = c14_probe_rc(b);
+          cmd_begin(b, ST_NO_SESSIONS, CC_FlushContext); b_u32(b, h); run(b); } else p[1] = 0xEEEE0000u | r.rc; }
+    /* ECC P-256 key with a known private scalar */
+    { uint8_t d[32], qx[32], qy[32]; for (int i = 0; i < 32; i++) d[i] = (uint8_t)(i + 3); c13_kG(&C13_CURVES[2], d, qx, qy);
+      Buf pub = {0}, sens = {0}; b_u16(&pub, ALG_ECC); b_u16(&pub, ALG_SHA256); b_u32(&pub, 0x00040440u); b_u16(&pub, 0); b_u16(&pub, ALG_NULL); b_u16(&pub, ALG_NULL); b_u16(&pub, 3); b_u16(&pub, ALG_NULL); b_2b(&pub, qx, 32); b_2b(&pub, qy, 32);
+      b_u16(&sens, ALG_ECC); b_u16(&sens, 0); b_u16(&sens, 0); b_2b(&sens, d, 32);
+      cmd_begin(b, ST_NO_SESSIONS, CC_LoadExternal); b_2b(b, sens.p, sens.n); b_2b(b, pub.p, pub.n); b_u32(b, RH_NULL); Rsp r = run(b); b_free(&pub); b_free(&sens);
+      if (r.rc == 0) { uint32_t h = g32(r.p + 10); uint8_t dg[20]; memset(dg, 0x33, 20); uint8_t rs[32]; memset(rs, 0x44, 32);
+          cmd_begin(b, ST_SESSIONS, CC_Sign); b_u32(b, h); auth_pw(b, "", 0); b_2b(b, dg, 20); b_u16(b, ALG_ECDSA); b_u16(b, ALG_SHA1); b_u16(b, 0x8024); b_u32(b, RH_NULL); b_u16(b, 0); p[2] = c14_probe_rc(b);
+          cmd_begin(b, ST_NO_SESSIONS, CC_VerifySignature); b_u32(b, h); b_2b(b, dg, 20); b_u16(b, ALG_ECDSA); b_u16(b, ALG_SHA1); b_2b(b, rs, 32); b_2b(b, rs, 32); p[3] = c14_probe_rc(b);
+          cmd_begin(b, ST_NO_SESSIONS, CC_FlushContext); b_u32(b, h); run(b); } else p[2] = p[3] = 0xEEEE0000u | r.rc; }
+    /* HMAC key (a primary of the NULL hierarchy, scheme left open) */
+    { Buf t = {0}; b_u16(&t, ALG_KEYEDHASH); b_u16(&t, ALG_SHA256); b_u32(&t, 0x00060472u); b_u16(&t, 0); b_u16(&t, ALG_NULL); b_u16(&t, 0);   /* sign and decrypt: the scheme stays open */
+      cmd_begin(b, ST_SESSIONS, CC_CreatePrimary); b_u32(b, RH_NULL); auth_pw(b, "", 0); b_u16(b, 4); b_u16(b, 0); b_u16(b, 0); b_2b(b, t.p, t.n); b_u16(b, 0); b_u32(b, 0); b_free(&t);
+      Rsp r = run(b);
+      if (r.rc == 0) { uint32_t h = g32(r.p + 10); uint8_t dg[20]; memset(dg, 0x33, 20);
+          cmd_begin(b, ST_SESSIONS, CC_Sign); b_u32(b, h); auth_pw(b, "", 0); b_2b(b, dg, 20); b_u16(b, ALG_HMAC); b_u16(b, ALG_SHA1); b_u16(b, 0x8024); b_u32(b, RH_NULL); b_u16(b, 0); p[4] = c14_probe_rc(b);
+          cmd_begin(b, ST_NO_SESSIONS, CC_VerifySignature); b_u32(b, h); b_2b(b, dg, 20); b_u16(b, ALG_HMAC); b_u16(b, ALG_SHA1); b_bytes(b, dg, 20); p[5] = c14_probe_rc(b);
+          cmd_begin(b, ST_NO_SESSIONS, CC_FlushContext); b_u32(b, h); run(b); } else p[4] = p[5] = 0xEEEE0000u | r.rc; }
+    cmd_begin(b, ST_NO_SESSIONS, 0x18E /* EC_Ephemeral */); b_u16(b, 3); p[6] = c14_probe_rc(b);
+    tr("attrprobe tag=%s p1=%u p2=%u p3=%u p4=%u p5=%u p6=%u", tag, p[1], p[2], p[3], p[4], p[5], p[6]);
+}
 static void scen_c14(int histories) {
     Buf b = {0}; TPMLIB_Terminate(); TPMLIB_ChooseTPMVersion(TPMLIB_TPM_VERSION_2); c14_learn();
     /* baseline: what the library implements at all (null profile) */
@@ -59,9 +93,21 @@ static void scen_c14(int histories) {
     for (int h = 0; h < histories; h++) {
         tr("hist %d", h);
         TPMLIB_Terminate(); storage_reset(); TPMLIB_ChooseTPMVersion(TPMLIB_TPM_VERSION_1_2); TPMLIB_ChooseTPMVersion(TPMLIB_TPM_VERSION_2); TPMLIB_RegisterCallbacks(&g_cbs);
-        char prof[8192]; int n = 0; int variant = rnd(20);
+        char prof[8192]; int n = 0; int variant = rnd(20); g_c14_attr_profile = 0;
         if (h % 7 == 5) n = sprintf(prof, "%s", PROFILE_NULL);
         else if (h % 7 == 6) n = sprintf(prof, "%s", PROFILE_DEFAULT_V1);
+        else if (h % 3 == 1) {   /* attributes: every command and algorithm stays on so that the probes reach the attribute checks */
+            static const char *AT[] = {"no-unpadded-encryption", "no-sha1-signing", "no-sha1-verification", "no-sha1-hmac-creation", "no-sha1-hmac-verification", "no-sha1-hmac", "fips-host", "drbg-continous-test", "pct", "no-ecc-key-derivation"};
+            n += sprintf(prof + n, "{\"Name\":\"custom:a%d\"", h);
+            if (chance(35)) n += sprintf(prof + n, ",\"StateFormatLevel\":%d", chance(75) ? 7 + rnd(2) : 2 + rnd(8));
+            n += sprintf(prof + n, ",\"Attributes\":\""); int na = rnd(5), firsta = 1;
+            for (int q = 0; q < na; q++) { n += sprintf(prof + n, "%s%s", firsta ? "" : ",", AT[rnd(10)]); firsta = 0; }
+            if (variant == 8) n += sprintf(prof + n, "%sno-such-attribute", firsta ? "" : ",");
+            if (variant == 10) n += sprintf(prof + n, "%s", firsta ? "," : ",,pct");             /* empty item */
+            if (variant == 11 && !firsta) n += sprintf(prof + n, " ");                            /* trailing blank */
+            n += sprintf(prof + n, "\"}");
+            g_c14_attr_profile = 1;
+        }
         else {
             n += sprintf(prof + n, "{\"Name\":\"custom:h%d\"", h);
             if (chance(45)) n += sprintf(prof + n, ",\"StateFormatLevel\":%d", chance(70) ? 2 + rnd(6) : rnd(10));
@@ -99,20 +145,20 @@ static void scen_c14(int histories) {
         if (sr != TPM_SUCCESS) continue;
         TPM_RESULT mi = TPMLIB_MainInit(); tr("maininit ret=%u", mi); if (mi != TPM_SUCCESS) continue;
         tpm2_startup(&b, 0);
-        c14_active("first"); c14_surface(&b, "first");
+        c14_active("first"); c14_surface(&b, "first"); c14_attr_probes(&b, "first");
         /* the profile travels with the state */
-        if (chance(60)) { TPM_RESULT r = tpm2_powercycle(); tpm2_startup(&b, 0); tr("restart ret=%u", r); c14_active("restart"); if (chance(40)) c14_surface(&b, "restart"); }
-        if (chance(60)) { TPM_RESULT r = tpm2_suspend_resume(NULL, NULL); tr("resume ret=%u", r); c14_active("resume"); if (chance(40)) c14_surface(&b, "resume"); }
+        if (chance(60)) { TPM_RESULT r = tpm2_powercycle(); tpm2_startup(&b, 0); tr("restart ret=%u", r); c14_active("restart"); if (chance(40)) c14_surface(&b, "restart"); c14_attr_probes(&b, "restart"); }
+        if (chance(60)) { TPM_RESULT r = tpm2_suspend_resume(NULL, NULL); tr("resume ret=%u", r); c14_active("resume"); if (chance(40)) c14_surface(&b, "resume"); c14_attr_probes(&b, "resume"); }
         /* a later SetProfile does not alter an existing TPM */
         { TPMLIB_Terminate(); TPM_RESULT r1 = TPMLIB_SetProfile(h % 2 ? PROFILE_NULL : "{\"Name\":\"custom:other\",\"Algorithms\":\"rsa,rsa-min-size=3072,hmac,aes,aes-min-size=256,mgf1,keyedhash,xor,sha256,sha384,null,oaep,ecdsa,ecdh,kdf1-sp800-56a,kdf2,kdf1-sp800-108,ecc,ecc-min-size=384,ecc-nist-p256,ecc-nist-p384,symcipher,cfb\"}");
-          TPM_RESULT r2 = TPMLIB_MainInit(); tpm2_startup(&b, 0); tr("laterprofile setprofile=%u maininit=%u", r1, r2); c14_active("later"); c14_surface(&b, "later"); }
+          TPM_RESULT r2 = TPMLIB_MainInit(); tpm2_startup(&b, 0); tr("laterprofile setprofile=%u maininit=%u", r1, r2); c14_active("later"); c14_surface(&b, "later"); c14_attr_probes(&b, "later"); }
         /* the reported ActiveProfile is accepted and reproduces the surface */
         { char *js = TPMLIB_GetInfo(TPMLIB_INFO_ACTIVE_PROFILE); char *inner = js ? strchr(js + 1, '{') : NULL;
           if (inner) { char *copy = strdup(inner); size_t l = strlen(copy); if (l && copy[l - 1] == '}') copy[l - 1] = 0;   /* strip the outer closing brace */
               TPMLIB_Terminate(); storage_reset(); TPMLIB_ChooseTPMVersion(TPMLIB_TPM_VERSION_1_2); TPMLIB_ChooseTPMVersion(TPMLIB_TPM_VERSION_2); TPMLIB_RegisterCallbacks(&g_cbs);
               TPM_RESULT r1 = TPMLIB_SetProfile(copy); TPM_RESULT r2 = r1 == TPM_SUCCESS ? TPMLIB_MainInit() : 1;
               tr("roundtrip setprofile=%u maininit=%u", r1, r2);
-              if (r2 == TPM_SUCCESS) { tpm2_startup(&b, 0); c14_active("roundtrip"); c14_surface(&b, "roundtrip"); }
+              if (r2 == TPM_SUCCESS) { tpm2_startup(&b, 0); c14_active("roundtrip"); c14_surface(&b, "roundtrip"); c14_attr_probes(&b, "roundtrip"); }
               free(copy); }
           free(js); }
     }
